@@ -472,7 +472,7 @@ func c09Prepare(path string) {
 		n := 0
 		for _, l := range lines {
 			r := c09Results[l]
-			if r.Outcome == "ok" && len(r.Events) > 0 && n < 400 {
+			if r.Outcome == "ok" && len(r.Events) > 0 && n < 250 {
 				n++
 				b, _ := json.Marshal(map[string]interface{}{"events": r.Events, "frags": r.Frags, "result": r.Result})
 				bw.Write(b)
